@@ -340,8 +340,16 @@ def vec_close(u, v, tol, k):
     return common.allclose(u.real, v.real, k=k, rtol=tol) and common.allclose(u.imag, v.imag, k=k, rtol=tol)
 
 
-def compare(impl, mod, e, check_adj=True):
-    """list of differing observables (empty = agree)"""
+def compare(impl, mod, e, check_adj=None, check_vals=None):
+    """list of differing observables (empty = agree).  Adjoint values are compared for kind-uniform
+    trees only (the model's contract of jax.linear_transpose is the conjugate transpose of the dense
+    matrix of a closure that is linear over its scalar field; an operator such as y -> Re(G^H y) is
+    only real-linear), forward values unless such an adjoint is used inside the expression."""
+    uni = kind_uniform(e)
+    if check_adj is None:
+        check_adj = uni
+    if check_vals is None:
+        check_vals = uni or not uses_adjoint(e)
     diffs = []
     if impl[0] == "err" or mod[0] == "err":
         if impl[0] != mod[0]:
@@ -359,16 +367,16 @@ def compare(impl, mod, e, check_adj=True):
     kk = max(4, a["matrix_shape"][0] * a["matrix_shape"][1])
     if a["eval_dt"] is not None and a["eval_dt"] != (b["eval_dt"] if not b["eval_dt"].startswith("err:") else b["eval_dt"]):
         diffs.append(("eval_dt", a["eval_dt"], b["eval_dt"]))
-    for i, (u, v) in enumerate(zip(a["eval"], b["eval"])):
+    for i, (u, v) in enumerate(zip(a["eval"], b["eval"]) if check_vals else []):
         if isinstance(u, tuple):
             continue  # evaluation error: compared through eval_dt
         if not vec_close(u, v, tol, kk):
             diffs.append((f"eval[{i}]", [complex(z) for z in u], [complex(z) for z in v]))
             break
-    if check_adj and a["adj_dt"] is not None:
+    if a["adj_dt"] is not None:
         if a["adj_dt"] != b["adj_dt"]:
             diffs.append(("adj_dt", a["adj_dt"], b["adj_dt"]))
-        else:
+        elif check_adj:
             for i, (u, v) in enumerate(zip(a["adj"], b["adj"])):
                 if isinstance(u, tuple):
                     continue
@@ -487,6 +495,37 @@ def _bdiag(d, insh):
     return np.stack(cols, axis=1) if cols else np.zeros((0, 0), dtype=np.complex128)
 
 
+def kind_uniform(e):
+    """all leaf dtypes of one kind (real / complex) and, for a real tree, only real scalar factors:
+    then every closure is linear over the scalar field of its dtype and no real part is taken of a
+    genuinely complex value (the regime of the Lean theorems)"""
+    kinds = set()
+
+    def walk(t):
+        for k in ("dt", "ddt", "indt", "gdt"):
+            if isinstance(t.get(k), str):
+                kinds.add(is_cplx(t[k]))
+        c = t.get("c")
+        if isinstance(c, dict):
+            if c["kind"] == "complex" or (c["kind"] in ("np", "jx") and is_cplx(c["dt"])):
+                kinds.add(True)
+            elif c["kind"] in ("np", "jx"):
+                kinds.add(False)
+        for k in ("a", "b"):
+            if isinstance(t.get(k), dict):
+                walk(t[k])
+
+    walk(e)
+    return len(kinds) <= 1
+
+
+def uses_adjoint(e):
+    """does evaluating the expression go through an adjoint closure (.T, .H, gram_op)?"""
+    if e["t"] in ("T", "H", "gram"):
+        return True
+    return any(uses_adjoint(e[k]) for k in ("a", "b") if isinstance(e.get(k), dict))
+
+
 def has_nonlin(e):
     if e["t"] == "nonlin":
         return True
@@ -559,7 +598,7 @@ def oracle(env):
             outs.append(env.flat(y))
         if info["sizes"] != info["matrix_shape"] or info["matrix_shape"] != [size(info["out_shape"]), size(info["in_shape"])]:
             fails["matrix_shape"] = {"matrix_shape": info["matrix_shape"], "sizes": info["sizes"]}
-        if not fails and not has_nonlin(e):
+        if not fails and not has_nonlin(e) and (kind_uniform(e) or not uses_adjoint(e)):
             try:
                 D = np_den(e)
             except (ValueError, ZeroDivisionError):
